@@ -44,8 +44,11 @@ def renotate(rng, s):
     if c == 1:
         return ' ' + s.strip()
     if c == 2:
-        t = '%E' % d
-        return t
+        # exact scientific notation (no rounding): d.ddddE+xx
+        sign, digits, exp = d.as_tuple()
+        ds = ''.join(str(x) for x in digits).lstrip('0') or '0'
+        e = exp + len(ds) - 1
+        return '%s%s.%sE%+03d' % ('-' if sign else '', ds[0], ds[1:] or '0', e)
     # append a zero to the mantissa
     t = s.strip()
     if 'e' in t.lower():
@@ -105,7 +108,7 @@ def gen_coef(rng):
 ZERO_FORMS = ['0.0', '0.00000000', '0.0000000E+00', '0.000000', '-0.0', ' 0.0']
 
 
-def gen_block(rng, l, nprim, ncontr, nfree, ftype):
+def gen_block(rng, l, nprim, ncontr, nfree, ftype, allow_unused=False):
     """One general-contraction shell: ncontr contracted columns + nfree free-primitive columns."""
     xs = gen_exponents(rng, nprim)
     cols = []
@@ -125,6 +128,16 @@ def gen_block(rng, l, nprim, ncontr, nfree, ftype):
         col = [rng.choice(ZERO_FORMS) for _ in range(nprim)]
         col[r] = rng.choice(['1.0', '1.00000000', '1.0000000E+00', gen_coef(rng)])
         cols.append(col)
+    # the validator's rule: no primitive may be unused
+    for i in range(0 if not allow_unused else nprim, nprim):
+        if all(frac(col[i]) == 0 for col in cols):
+            contracted = [c for c in cols[:ncontr]]
+            if contracted and rng.random() < 0.7:
+                rng.choice(contracted)[i] = gen_coef(rng)
+            else:
+                col = [rng.choice(ZERO_FORMS) for _ in range(nprim)]
+                col[i] = rng.choice(['1.0', '1.00000000', gen_coef(rng)])
+                cols.append(col)
     return {'function_type': ftype, 'region': '', 'angular_momentum': [l], 'exponents': xs, 'coefficients': cols}
 
 
@@ -171,7 +184,7 @@ def independent(shells_of_l):
     return True
 
 
-def gen_element_shells(rng, lmax=None, allow_fused=True, cart=False, shared=True):
+def gen_element_shells(rng, lmax=None, allow_fused=True, cart=False, shared=True, unused_prob=0.0):
     lmax = rng.choice([0, 1, 2, 2, 3, 4, 6, 9, 12]) if lmax is None else lmax
     shells = []
     fused_done = False
@@ -188,7 +201,7 @@ def gen_element_shells(rng, lmax=None, allow_fused=True, cart=False, shared=True
                 nfree = rng.randint(0, min(3, nprim))
                 if ncontr + nfree == 0:
                     nfree = 1
-                mine.append(gen_block(rng, l, nprim, ncontr, nfree, ft))
+                mine.append(gen_block(rng, l, nprim, ncontr, nfree, ft, rng.random() < unused_prob))
             else:
                 nsh = rng.randint(1, 4)
                 pool = []
